@@ -242,8 +242,8 @@ def run(tier, seed):
     # several hundred nodes matched by two suspended queries
     from .. import gen as _g
     SG = _g.scale_groups()
-    chk.machine_family("large-script-two-engines", SG["bigscript"], {"budget_extra": 20000000}, features=features, max_steps=8000)
-    chk.machine_family("large-fact-two-queries", SG["bigfact"], {"budget_extra": 20000000}, features=features, max_steps=8000)
+    chk.machine_family("large-script-two-engines", SG["bigscript"], {"budget_extra": 20000000, "must_complete": True}, features=features, max_steps=8000)
+    chk.machine_family("large-fact-two-queries", SG["bigfact"], {"budget_extra": 20000000, "must_complete": True}, features=features, max_steps=8000)
     if tier == "thorough":
         free_run(chk, [(scns[r["id"] - 1], r) for r in recs], seed, 2000)
     else:
